@@ -144,6 +144,11 @@ def bnfuse_case(rnd, events):
   # fused bias has to be the batch-norm algebra on the QUANTIZED bias
   lossy = usebias and rnd.random() < 0.5
   bq = "quantized_bits(5,2,1,alpha=1.0)" if lossy else wide
+  # or a power-of-two bias quantizer (exported in sign / exponent form): the fused bias is still the algebra on the
+  # quantized bias VALUE
+  po2b = usebias and not lossy and rnd.random() < 0.4
+  if po2b:
+    bq = "quantized_po2(8)"
   # the batch-norm layer's own quantizers: a really rounding beta quantizer (step 2^-3, beta on the 2^EFB grid), or an
   # inverse quantizer (step 2^-1) on gamma*rsqrt(var+eps) - then gamma / variance quantizers have to be None
   invq = scale and rnd.random() < 0.4
@@ -174,6 +179,8 @@ def bnfuse_case(rnd, events):
   beta = rints(rnd, (nch,), -20, 20, EFB) if center else np.zeros((nch,), np.float32)
   mean = rints(rnd, (nch,), -5, 5, EB)
   b = rints(rnd, (nch,), -5, 5, EB) if usebias else np.zeros((nch,), np.float32)
+  if po2b:
+    b = np.array([rnd.choice([-1.0, 1.0]) * 2.0 ** rnd.randint(EB, 2) for _ in range(nch)], dtype=np.float32)     # exact powers of two
   set_named(bn, {"gamma": gam, "beta": beta, "moving_mean": mean, "moving_variance": (4.0 ** J - EPS).astype(np.float32)})
   ws = conv.get_weights()
   ws[0] = rints(rnd, ws[0].shape, -6, 6, EK)
@@ -203,7 +210,7 @@ def bnfuse_case(rnd, events):
   bnw_ok = int("bn" in d and all(np.array_equal(w, want.get(n, w0)) for n, w, w0 in zip(names, bn.get_weights(), bn_before)) and
                all(np.array_equal(a, b_) for a, b_ in zip(d["bn"]["weights"], bn.get_weights())))
   events.append({"kind": "bnfuse", "dw": int(dw), "usebias": int(usebias), "lossy": int(lossy), "center": int(center), "scale": int(scale),
-                 "invq": int(invq), "lossy_beta": int(lossy_beta),
+                 "invq": int(invq), "lossy_beta": int(lossy_beta), "po2b": int(po2b),
                  "gam": ints(gam, EG), "J": [int(v) for v in J], "b": ints(b, EB), "mean": ints(mean, EB),
                  "beta": ints(qbeta, EFB), "inv": ints(np.broadcast_to(ent["bn_inv"], (nch,)), EG - 2),
                  "qinv": ints(np.broadcast_to(qinv, (nch,)), EG - 2), "bnw_ok": bnw_ok,
